@@ -83,6 +83,11 @@ finding("P55", ["C19"], "fixed", "gen with --imports-from-file and --emit-and-in
 
 finding("P38", ["C19", "C03"], "fixed", "argparse_ast IR has no 'returns' key; json_schema/sqlalchemy emitters raise KeyError on it (gen --parse argparse --emit json_schema)", "4d775b6")
 
+finding(
+    "P58", ["C01"], "fixed", "word_wrap splits a hyphenated string default ('AA-AA') inside the 'Defaults to' sentence over two lines: it comes back as 'AA- AA' (found by the thorough tier)", "5739e24",
+    {"C01": [I([["a", {"typ": "int", "doc": " ".join(["alpha"] * 10)}], ["a0", {"typ": "str", "doc": " ".join(["alpha"] * 12), "default": "AA-AA"}]], doc="", cells=[["rest", True, True, True, True], ["rest", True, False, False, True], ["numpydoc", True, False, True, True]])]},
+)
+
 # ------------------------------------------------------------------ open
 finding("P9", ["C12"], "open", "sync leaves function and argparse targets that differ from the truth untouched ('unchanged'); Class.method targets get a new top-level def appended on every run; (repair would break 4 pinned test_conformance tests)")
 finding("P12", ["C01", "C08"], "open", "string default '' is emitted as 'Defaults to' and lost; string defaults containing '.' are truncated")
